@@ -16,7 +16,7 @@ def run(ctx):
     from shapepy.jordancurve import IntegrateJordan
     from harness.props.c04 import rounded
     rng, drv = ctx.rng, ctx.drv
-    n = 30 if ctx.quick else 1200
+    n = 30 if ctx.quick else 400
     for it in range(n):
         vs = shapes.rand_simple_vs(rng, rng.randint(-4, 4), rng.randint(-4, 4), R=6)
         if it % 3 == 0:
